@@ -69,6 +69,7 @@ def safe_sqrt(ctx):
     conds = [c for c in ast.walk(r.node) if isinstance(c, ast.Call) and (dotted(c.func) or "").endswith("lax.cond")]
     ok = False
     shown = "?"
+    fname = dfname = None
     if len(conds) == 1 and len(conds[0].args) >= 4:
         c = conds[0]
         test, tb, fb, op = c.args[:4]
@@ -77,19 +78,27 @@ def safe_sqrt(ctx):
         okt = isinstance(test, ast.Compare) and isinstance(test.ops[0], ast.LtE) and const_value(test.comparators[0]) == 0 and same(test.left, op)
         okz = isinstance(tb, ast.Lambda) and const_value(tb.body) == 0
         try:
-            okd = isinstance(fb, ast.Lambda) and A.equal(A.lower(fb.body), A.lower(ast.parse("0.5/f", mode="eval").body))
+            fdef = [s_.targets[0].id for s_ in ast.walk(r.node) if isinstance(s_, ast.Assign) and isinstance(s_.targets[0], ast.Name)
+                    and isinstance(s_.value, ast.Call) and (dotted(s_.value.func) or "").split(".")[-1] == "safe_sqrt"]
+            okd = isinstance(fb, ast.Lambda) and bool(fdef) and A.equal(A.lower(fb.body), A.lower(ast.parse(f"0.5/{fdef[0]}", mode="eval").body))
         except NotPolynomial:
             okd = False
         # f is the decorated function at x, df multiplies the tangent
-        okf = any(isinstance(s, ast.Assign) and src(s.targets[0]) == "f" and same(s.value, f"safe_sqrt({src(op)})") for s in ast.walk(r.node))
-        okm = any(isinstance(s, ast.Assign) and src(s.targets[0]) == "df" and isinstance(s.value, ast.BinOp) and isinstance(s.value.op, ast.Mult)
-                  and (s.value.right is c or s.value.left is c) for s in ast.walk(r.node))
+        from .common import Unifier
+        ur = Unifier(r)
+        okf = len(ur.assigns(f"safe_sqrt({src(op)})", target="f")) == 1
+        fname = ur.actual("f")
+        mul = [s for s in ast.walk(r.node) if isinstance(s, ast.Assign) and isinstance(s.value, ast.BinOp) and isinstance(s.value.op, ast.Mult)
+               and (s.value.right is c or s.value.left is c)]
+        okm = len(mul) == 1
+        dfname = mul[0].targets[0].id if okm and isinstance(mul[0].targets[0], ast.Name) else "df"
         ok = okt and okz and okd and okf and okm
         shown = f"test x<=0: {okt}, zero tangent there: {okz}, 0.5/f otherwise: {okd}, f = safe_sqrt(x): {okf}, scaled by the tangent: {okm}"
     ctx.decide(rule, ok, r, conds[0] if conds else None, construct="safe_sqrt_jvp", detail=shown,
                bad_detail=f"safe_sqrt's derivative rule is not `v * (0 if x <= 0 else 0.5/safe_sqrt(x))`: {shown}")
     rets = r.returns()
-    ok = len(rets) == 1 and same(rets[0], "(f, df)")
+    ok = len(rets) == 1 and isinstance(rets[0], ast.Tuple) and len(rets[0].elts) == 2 and bool(conds) and \
+        [src(x) for x in rets[0].elts] == [fname, dfname]
     ctx.decide(rule, ok, r, rets[0] if rets else None, construct="safe_sqrt_jvp:returns-(primal,tangent)", detail="(f, df)", bad_detail=f"returns `{src(rets[0]) if rets else '?'}`")
 
 
